@@ -5,7 +5,8 @@ contradictory labels: map only grows, map_a2b(labels_a) == targets, predictions
 are classes seen and equal map[predict_a], regression returns the B-side centre.  Histories also contain calls that the
 library REJECTS (valid targets, X not prepared / of the wrong width), caught by the
 caller, after which training and querying go on: a rejected call has trained
-nothing on either side, so every clause holds for the accepted samples alone.
+nothing on either side, so every clause holds for the accepted samples alone.  The same clauses are also checked on
+histories run in CHILD interpreters that strip assert statements (python -O, PYTHONOPTIMIZE=1).
 Tie: Lean SimpleARTMAP histories end-to-end on exact kernels."""
 from __future__ import annotations
 
@@ -20,7 +21,10 @@ RULE = ("cases = (A-side class, [B-side class], hyper-parameters, stream, label 
         "classes and >= 2 A-side categories exist; distinct by hash of (spec, stream, labels, mode, eps, batching); "
         "plus histories with REJECTED calls (valid targets, X not prepared / wider / narrower; as fit or partial_fit; before "
         "any training, between calls, last) caught by the caller: the rejected call leaves map, labels_a, labels_b as they "
-        "were and all clauses hold after it and after every later call for the accepted samples")
+        "were and all clauses hold after it and after every later call for the accepted samples; plus the main family's "
+        "histories (every A-side class x mode; fit / partial_fit batches / re-fit with other labels; identical rows with different "
+        "labels) run by a self-contained script in child interpreters with assertions stripped (python -O; PYTHONOPTIMIZE=1), "
+        "all clauses evaluated there after every call and on the predictions")
 
 A_SIDES = specs.ELEM + ["DualVigilanceART", "FusionART"]
 
@@ -258,6 +262,315 @@ def rejected_call_histories(ctx, N, nmax):
         cov.case((spec, desc["X"], desc["y"], mode, eps, desc["calls"]), ncls >= 2 and len(est.map) >= 2)
 
 
+# ------------------------------------------------------------------------------------------------------------------
+# The same clauses in an interpreter that runs with assertions stripped (python -O, PYTHONOPTIMIZE=1).  Whether the
+# interpreter executes `assert` statements is a configuration of the deployment, not of the library: C09 holds for
+# every history whichever way the interpreter was started.  The histories are driven in a CHILD interpreter by the
+# self-contained script below (it imports only numpy and artlib, found through PYTHONPATH=$VERIF_REPO; the harness
+# itself is not imported there, so none of its own asserts are involved), which prints one JSON verdict.
+
+O_SCRIPT = r"""
+import sys, os, io, json, signal, importlib, warnings
+from copy import deepcopy
+warnings.filterwarnings("ignore")
+for _m in ("numpy", "matplotlib.axes", "matplotlib.colors", "matplotlib.pyplot", "sklearn.base", "sklearn.utils.validation",
+           "sklearn.utils.multiclass", "sklearn.metrics", "scipy.stats", "scipy.spatial", "scipy.spatial.distance"):
+    try:
+        importlib.import_module(_m)
+    except ImportError:
+        pass
+sys.dont_write_bytecode = True      # third-party byte code may be cached (PYTHONPYCACHEPREFIX); the library's never is
+import numpy as np
+import artlib
+
+REAL_OUT = sys.stdout
+sys.stdout = io.StringIO()           # some estimators print
+
+
+class Hang(Exception):
+    pass
+
+
+def _alarm(sig, frm):
+    raise Hang("no return within the time limit")
+
+
+signal.signal(signal.SIGALRM, _alarm)
+
+
+def guarded(f, *a, **k):
+    signal.setitimer(signal.ITIMER_REAL, 30.0)
+    try:
+        return f(*a, **k)
+    finally:
+        signal.setitimer(signal.ITIMER_REAL, 0)
+
+
+def make(spec):
+    if not isinstance(spec, dict) or "cls" not in spec:
+        return spec
+    kw = {k: v for k, v in spec.items() if k != "cls"}
+    for k, v in list(kw.items()):
+        if isinstance(v, dict) and "cls" in v:
+            kw[k] = make(v)
+        elif isinstance(v, list) and v and isinstance(v[0], dict) and "cls" in v[0]:
+            kw[k] = [make(t) for t in v]
+        elif k in ("sigma_init", "cov_init"):
+            kw[k] = np.array(v, dtype=float)
+    return getattr(artlib, spec["cls"])(**kw)
+
+
+def exc_name(e):
+    return {"AssertionError": "assert", "KeyError": "key", "IndexError": "index", "ValueError": "value", "TypeError": "type",
+            "ZeroDivisionError": "zerodiv", "AttributeError": "attr", "Hang": "hang"}.get(type(e).__name__, "other:" + type(e).__name__)
+
+
+def run_case(case):
+    # the clauses of C09 after every call and on the predictions; returns [(signature, what, after_call)]
+    bad = []
+    spec = deepcopy(case["spec"])
+    cls, acls = spec["cls"], spec["module_a"]["cls"]
+    use_artmap = cls == "ARTMAP"
+    X = np.array(case["X"], dtype=float)
+    ys = {k: np.array(case[k], dtype=case["y_dtype"]) for k in ("y", "y0") if case.get(k) is not None}
+    kw = dict(match_tracking=case["mode"], epsilon=case["eps"])
+    try:
+        est = make(spec)
+        if case.get("b_prepare"):
+            est.module_b.prepare_data(np.array([[0.0] * case["b_prepare"], [1.0] * case["b_prepare"]]))
+    except Exception as e:
+        return [(f"{cls}({acls}).__init__:{exc_name(e)}", repr(e), -1)]
+    prev, want = {}, []
+    for k, call in enumerate(case["calls"]):
+        a, b = call["rows"]
+        yc = ys[call["labels"]][a:b]
+        try:
+            if call["op"] == "fit":
+                guarded(est.fit, X[a:b], yc, max_iter=case["epochs"], **kw)
+                prev, want = {}, yc.tolist()
+            else:
+                guarded(est.partial_fit, X[a:b], yc, **kw)
+                want = want + yc.tolist()
+        except Exception as e:
+            bad.append((f"{cls}({acls}).{call['op']}:{exc_name(e)}", f"{call['op']} rows {a}:{b} raised {e!r}", k))
+            return bad
+        cur = {int(p): int(q) for p, q in est.map.items()}
+        changed = {c: (prev[c], cur.get(c)) for c in prev if cur.get(c) != prev[c]}
+        if changed:
+            bad.append((f"{cls}:map-overwritten", f"entries changed: {changed}", k))
+        prev = cur
+        na = est.module_a.n_clusters
+        la, lb = np.asarray(est.labels_a), np.asarray(est.labels_b)
+        if len(la) != len(want) or len(lb) != len(want):
+            bad.append((f"{cls}:labels-length", f"labels_a {len(la)} labels_b {len(lb)} samples {len(want)}", k))
+            continue
+        if sorted(cur) != list(range(na)) or not set(la.tolist()) <= set(cur):
+            bad.append((f"{cls}:map-domain", f"map keys {sorted(cur)}, {na} A-side categories, A-labels used {sorted(set(la.tolist()))}", k))
+        # every training sample is encoded by a category of its own class <=> each category encodes one class only
+        mixed = {int(c): sorted(set(lb[la == c].tolist())) for c in set(la.tolist()) if len(set(lb[la == c].tolist())) > 1}
+        if mixed:
+            bad.append((f"{cls}:category-encodes-several-classes", f"A-side category -> classes of its samples: {mixed}", k))
+        try:
+            mapped = np.asarray(est.map_a2b(la))
+            if not np.array_equal(mapped, lb):
+                bad.append((f"{cls}:map_a2b(labels_a)!=targets", f"mapped {mapped.tolist()} targets {lb.tolist()}", k))
+            one = [int(est.map_a2b(int(c))) for c in la.tolist()]
+            if one != [cur[int(c)] for c in la.tolist()]:
+                bad.append((f"{cls}:map_a2b(scalar)!=map", f"{one} vs map {cur} on {la.tolist()}", k))
+        except Exception as e:
+            bad.append((f"{cls}.map_a2b:{exc_name(e)}", repr(e), k))
+        if not use_artmap and lb.tolist() != want:
+            bad.append((f"{cls}:labels_b!=y", f"labels_b {lb.tolist()} y {want}", k))
+    q = X[case["queries"]]
+    try:
+        p = np.asarray(guarded(est.predict, q))
+        a_, b_ = guarded(est.predict_ab, q)
+        seen = set(int(t) for t in np.asarray(est.labels_b))
+        if not set(p.tolist()) <= seen:
+            bad.append((f"{cls}.predict:class-never-seen", f"{p.tolist()} seen {sorted(seen)}", "all"))
+        if [est.map[int(c)] for c in a_] != p.tolist() or not np.array_equal(np.asarray(b_), p):
+            bad.append((f"{cls}.predict!=map[predict_a]", f"a {list(map(int, a_))} b {list(map(int, b_))} p {p.tolist()}", "all"))
+        if use_artmap:
+            reg = np.asarray(guarded(est.predict_regression, q))
+            cen = est.module_b.get_cluster_centers()
+            wantc = np.array([cen[int(c)] for c in p])
+            if reg.shape != wantc.shape or not np.array_equal(reg, wantc, equal_nan=True):
+                bad.append(("ARTMAP.predict_regression!=B-centre", f"{reg.tolist()} vs {wantc.tolist()}", "all"))
+    except Exception as e:
+        bad.append((f"{cls}({acls}).predict:{exc_name(e)}", f"predict raised {e!r}", "all"))
+    return bad, {"classes": len(set(np.asarray(est.labels_b).tolist())), "categories": len(est.map)}
+
+
+def main():
+    cases = json.load(sys.stdin)["cases"]
+    res = []
+    for case in cases:
+        try:
+            r = run_case(case)
+        except Exception as e:          # the script itself: reported as such, never as a verdict on the library
+            res.append({"error": repr(e)})
+            continue
+        bad, info = r if isinstance(r, tuple) else (r, None)
+        res.append({"bad": [list(t) for t in bad], "info": info})
+    verdict = {"debug": __debug__, "optimize": sys.flags.optimize, "artlib": os.path.realpath(artlib.__file__), "results": res}
+    REAL_OUT.write("ARTV-C09-VERDICT " + json.dumps(verdict) + "\n")
+    REAL_OUT.flush()
+
+
+main()
+"""
+
+O_INTERPRETERS = [("python -O", ["-O"], {}), ("PYTHONOPTIMIZE=1", [], {"PYTHONOPTIMIZE": "1"})]
+
+
+def o_case(r, i, nmax):
+    """one history of the main family (A-side class, [B-side class], stream with duplicated rows, label sequence incl.
+    contradictory labels on identical rows, mode, epsilon, batching / epochs / re-fit with other labels) as plain data"""
+    acls = A_SIDES[i % len(A_SIDES)]
+    mode = MODES[(i // len(A_SIDES)) % 5]
+    eps = r.choice([1e-10, 0.0, 2.0 ** -20, 2.0 ** -10, 0.125])
+    n = r.randint(2, nmax)
+    aspec, X = a_side(r, acls, n)
+    X = np.array(X, dtype=float)
+    for _ in range(r.choice([0, 1, 2])):         # identical rows: with different labels only the veto keeps the classes apart
+        s_, t_ = r.randrange(n), r.randrange(n)
+        X[t_] = X[s_]
+    use_artmap = r.random() < 0.4
+    kcls = r.randint(2, 4)
+    case = {"b_prepare": None, "y0": None}
+    if use_artmap:
+        bcls = r.choice(["FuzzyART", "HypersphereART", "ART2A"])
+        db = r.randint(1, 2)
+        bspec = specs.elem_spec(r, bcls, specs.width(bcls, db) if bcls != "FuzzyART" else db)
+        if bspec.get("alpha") == 0.0:
+            bspec["alpha"] = 2.0 ** -10
+        centers = gen.grid_rows(r, kcls, db, style="coarse")
+        yraw = np.array([centers[r.randrange(kcls)] for _ in range(n)])
+        y = gen.cc(yraw) if bcls == "FuzzyART" else yraw
+        spec = {"cls": "ARTMAP", "module_a": aspec, "module_b": bspec}
+        if bcls == "FuzzyART":
+            case["b_prepare"] = db
+    else:
+        y = gen.labels(r, n, kcls)
+        if r.random() < 0.3:
+            y = y - r.choice([1, 2])
+        spec = {"cls": "SimpleARTMAP", "module_a": aspec}
+    style = r.choice(["fit", "pfit", "pfit", "refit"])
+    if style == "pfit":
+        calls, j = [], 0
+        for p in gen.compositions(r, n):
+            calls.append({"op": "pfit", "rows": [j, j + p], "labels": "y"})
+            j += p
+    else:
+        calls = [{"op": "fit", "rows": [0, n], "labels": "y"}]
+        if style == "refit":
+            y0 = y[::-1].copy() if use_artmap else (np.asarray(y) - np.asarray(y).min() + 1 + r.randrange(3)) % (kcls + 2)
+            case["y0"] = np.asarray(y0).tolist()
+            calls = [{"op": "fit", "rows": [0, n], "labels": "y0"}] + calls
+    case.update({"spec": spec, "X": X.tolist(), "y": np.asarray(y).tolist(), "y_dtype": str(np.asarray(y).dtype), "mode": mode, "eps": eps,
+                 "epochs": r.choice([1, 1, 1, 2, 3]), "calls": calls, "queries": [r.randrange(n) for _ in range(min(n, 6))]})
+    return case, style
+
+
+def optimized_interpreter_histories(ctx, N, nmax):
+    """C09 on histories run in child interpreters that strip `assert` statements: started as `python -O`, and through
+    the environment (PYTHONOPTIMIZE=1).  The unchanged library only *checks* inside its asserts, so everything it
+    records (map, labels_a, labels_b) is the same there and every clause holds."""
+    per = len(A_SIDES) * len(MODES)               # every (A-side, mode) pair goes to every interpreter
+    groups = {name: [] for name, _, _ in O_INTERPRETERS}
+    for i in range(N):
+        r = gen.rng_for(ctx.seed, "C09-optimized", i)
+        name = O_INTERPRETERS[(i // per) % len(O_INTERPRETERS)][0]
+        groups[name].append(o_case(r, i, nmax))
+    run_optimized(ctx, groups)
+
+
+def replay(ctx, payload):
+    """re-run one reported history of the child-interpreter family (other replays of C09 carry their inputs as data)"""
+    rep = payload.get("replay") or {}
+    if isinstance(rep.get("case"), dict) and rep.get("interpreter") in [n for n, _, _ in O_INTERPRETERS]:
+        run_optimized(ctx, {rep["interpreter"]: [(rep["case"], "replay")]})
+    return 0
+
+
+def run_optimized(ctx, groups):
+    """groups: interpreter name -> [(case, style)]; one child interpreter per name (they run side by side)"""
+    import json
+    import os
+    import subprocess
+    import tempfile
+    from ..common import REPO, PY
+    cov = ctx.cov
+
+    def default(o):
+        if isinstance(o, np.ndarray):
+            return o.tolist()
+        if isinstance(o, np.integer):
+            return int(o)
+        if isinstance(o, np.floating):
+            return float(o)
+        raise TypeError(type(o))
+    base_env = {k: v for k, v in os.environ.items() if k not in ("PYTHONOPTIMIZE", "PYTHONDONTWRITEBYTECODE", "PYTHONSTARTUP", "PYTHONINSPECT")}
+    base_env["PYTHONPATH"] = str(REPO)
+    # no .pyc of the library is ever written or read (the script switches byte-code writing off before importing it);
+    # numpy / scipy / sklearn have no optimised byte code installed: theirs is kept in a private directory
+    base_env["PYTHONPYCACHEPREFIX"] = os.path.join(tempfile.gettempdir(), f"artv-pycache-opt-{os.getuid()}")
+    base_env["ARTLIB_VERIF"] = "1"
+    procs = []
+    with tempfile.TemporaryDirectory(prefix="artv-C09-") as tmp:
+        for name, flags, extra in O_INTERPRETERS:
+            if not groups.get(name):
+                continue
+            tag = str(len(procs))
+            with open(os.path.join(tmp, "in" + tag), "w") as f:
+                json.dump({"cases": [c for c, _ in groups[name]]}, f, default=default)
+            fi, fo, fe = open(os.path.join(tmp, "in" + tag)), open(os.path.join(tmp, "out" + tag), "w+"), open(os.path.join(tmp, "err" + tag), "w+")
+            argv = [PY] + flags + ["-c", O_SCRIPT]
+            p = subprocess.Popen(argv, stdin=fi, stdout=fo, stderr=fe, env=dict(base_env, **extra), cwd=tmp)
+            procs.append((name, flags, extra, p, fi, fo, fe))
+        for name, flags, extra, p, fi, fo, fe in procs:
+            how = {"interpreter": name, "argv": ["python"] + flags + ["-c", "<artv.checks.C09.O_SCRIPT>"], "env": dict(extra, PYTHONPATH="$VERIF_REPO"),
+                   "stdin": '{"cases": [<case>]}'}
+            try:
+                p.wait(timeout=600)
+            except subprocess.TimeoutExpired:
+                p.kill()
+                p.wait()
+            fo.seek(0)
+            fe.seek(0)
+            out, err = fo.read(), fe.read()
+            for f in (fi, fo, fe):
+                f.close()
+            line = [ln for ln in out.splitlines() if ln.startswith("ARTV-C09-VERDICT ")]
+            if not line:
+                ctx.issue("audit", f"C09:no-verdict-from-child:{name}", f"the child interpreter ({name}) exited with {p.returncode} and "
+                          f"printed no verdict; stderr ends: {err[-1500:]!r}", dict(how, cases=len(groups[name])))
+                continue
+            v = json.loads(line[-1][len("ARTV-C09-VERDICT "):])
+            if v["debug"] or v["optimize"] < 1 or not v["artlib"].startswith(os.path.realpath(str(REPO))):
+                ctx.issue("audit", f"C09:child-not-as-intended:{name}", f"__debug__={v['debug']} optimize={v['optimize']} artlib={v['artlib']} "
+                          f"(expected assertions stripped and artlib under {REPO})", how)
+                continue
+            cov.hit(f"child-interpreter:{name}:assertions-stripped")
+            for (case, style), res in zip(groups[name], v["results"]):
+                rep = dict(how, case=case)
+                cls, acls = case["spec"]["cls"], case["spec"]["module_a"]["cls"]
+                if "error" in res:
+                    ctx.issue("audit", f"C09:child-script-error:{name}", res["error"], rep)
+                    continue
+                for sig, what, after in res["bad"]:
+                    ctx.issue("violation", f"{sig}:assertions-stripped", f"in a child interpreter started as {name} (asserts are not executed): {what}",
+                              dict(rep, after_call=after))
+                if not res["bad"]:
+                    cov.hit(f"assertions-stripped:all-clauses-hold:{cls}:{style}:{case['mode']}")
+                    cov.hit(f"assertions-stripped:A-side:{acls}")
+                info = res["info"] or {"classes": 0, "categories": 0}
+                if cls == "ARTMAP" and not res["bad"]:
+                    cov.hit("assertions-stripped:regression-checked")
+                cov.case(("assertions-stripped", name, case["spec"], case["X"], case["y"], case["mode"], case["eps"], case["calls"]),
+                         info["classes"] >= 2 and info["categories"] >= 2)
+
+
 def run(ctx):
     cov = ctx.cov
     N = ctx.scale(360, 8000)
@@ -390,5 +703,6 @@ def run(ctx):
         if i < 3:
             cov.sample({"spec": spec, "mode": mode, "eps": eps, "n": n, "calls": calls, "map": dict(est.map)})
     rejected_call_histories(ctx, ctx.scale(240, 3000), ctx.scale(14, 40))
+    optimized_interpreter_histories(ctx, ctx.scale(100, 1000), ctx.scale(12, 30))
     e2e.smap_histories(ctx, "C09", ctx.scale(200, 4000), ctx.scale(16, 60))
     e2e.smap_epoch_histories(ctx, "C09", ctx.scale(80, 1500), ctx.scale(12, 40))
